@@ -344,3 +344,50 @@ def run_decrypt_cases(ctx, suite, cases, check_c02=True, expect=None, prop=None)
             if msg:
                 ctx.report(msg, {"case": c.describe(), "impl": repr(impl)[:300]}, f"{kind}:{c.note}")
     return cases
+
+
+# ------------------------------------------------------------------------------------------------
+# several recipients (general JSON), built by the reference implementation
+
+
+def build_multi(rng, enc, algs, plaintext=b"multi", aad=None, zip_=False, corrupt=None, other_cek_for=None):
+    """General JSON JWE for recipients using non-direct `algs`; keys are looked up by kid in a KeySet.
+    corrupt: index of a recipient whose encrypted key is damaged; other_cek_for: index wrapped with another CEK."""
+    import os
+    import zlib
+    cek = os.urandom(R.cek_len(enc))
+    iv = os.urandom(R.iv_len(enc))
+    prot = {"enc": enc}
+    if zip_:
+        prot["zip"] = "DEF"
+    pseg = b64u(json.dumps(prot, separators=(",", ":")).encode())
+    m = zlib.compress(plaintext)[2:-4] if zip_ else plaintext
+    a = R.compute_aad(pseg, aad)
+    ct, tag = R.content_encrypt(enc, cek, iv, a, m)
+    recips, keys = [], []
+    for i, alg in enumerate(algs):
+        kn = key_name(alg, enc)
+        kid = f"r{i}"
+        hdr = {"alg": alg, "kid": kid}
+        this_cek = os.urandom(len(cek)) if other_cek_for == i else cek
+        pub = native_pub(kn)
+        if alg.startswith("ECDH"):
+            eph = R.ephemeral_for(pub)
+            hdr["epk"] = R.public_jwk(R.pub_of(eph))
+            merged = dict(prot, **hdr)
+            z = R.dh(eph, pub)
+            kek = R.agreed_key(alg, enc, z, merged)
+            ek = R.key_wrap(kek, this_cek)
+        else:
+            ek, add = R.wrap_for(alg, enc, this_cek, pub, dict(prot, **hdr))
+            hdr.update(add)
+        if corrupt == i:
+            ek = bytes([ek[0] ^ 1]) + ek[1:]
+        recips.append({"header": hdr, "encrypted_key": b64u(ek).decode()})
+        keys.append(K.key(kn, private=True, kid=kid))
+    v = {"protected": pseg.decode(), "iv": b64u(iv).decode(), "ciphertext": b64u(ct).decode(), "tag": b64u(tag).decode(), "recipients": recips}
+    if aad:
+        v["aad"] = b64u(aad).decode()
+    meta = {"alg": "+".join(algs), "enc": enc, "key": key_name(algs[0], enc), "plaintext": plaintext, "zip": zip_, "serialization": "general", "sender": None,
+            "n": len(algs), "corrupt": corrupt, "other_cek_for": other_cek_for}
+    return v, KeySet(keys), meta
